@@ -85,14 +85,15 @@ Definition prestart_pc (p : ipc) : bool :=
 (* ---- monotone facts of the observer ------------------------------------------------------------------ *)
 Definition oinst_le (x x' : oinst) : Prop :=
   o_nm x' = o_nm x /\ (o_ended x = true -> o_ended x' = true) /\ (o_gone x = true -> o_gone x' = true) /\
-  (o_stopreq x = true -> o_stopreq x' = true) /\ (o_endst x <> None -> o_endst x' <> None).
+  (o_stopreq x = true -> o_stopreq x' = true) /\ (o_endst x <> None -> o_endst x' <> None) /\
+  o_launches x <= o_launches x'.
 Definition obs_le (o o' : obs) : Prop :=
   forall j x, get j (oi o) = Some x -> exists x', get j (oi o') = Some x' /\ oinst_le x x'.
 
 Lemma oinst_le_refl x : oinst_le x x.
 Proof. unfold oinst_le; repeat split; auto. Qed.
 Lemma oinst_le_trans x y z : oinst_le x y -> oinst_le y z -> oinst_le x z.
-Proof. unfold oinst_le. intros (A1 & A2 & A3 & A4 & A5) (B1 & B2 & B3 & B4 & B5). repeat split; auto; congruence. Qed.
+Proof. unfold oinst_le. intros (A1 & A2 & A3 & A4 & A5 & A6) (B1 & B2 & B3 & B4 & B5 & B6). repeat split; auto; try congruence; lia. Qed.
 Lemma obs_le_refl o : obs_le o o.
 Proof. intros j x H. exists x. split; [exact H|apply oinst_le_refl]. Qed.
 Lemma obs_le_trans o1 o2 o3 : obs_le o1 o2 -> obs_le o2 o3 -> obs_le o1 o3.
@@ -129,7 +130,7 @@ Ltac oinst_le_tac :=
   intros; unfold oinst_le; cbn;
   repeat match goal with |- context[if ?b then _ else _] => destruct b; cbn end;
   repeat split; auto; try congruence; try discriminate;
-  try (intros ->; reflexivity); try (intros; apply orb_true_r).
+  try (intros ->; reflexivity); try (intros; apply orb_true_r); try lia.
 
 Ltac obs_le_close :=
   repeat first
@@ -203,17 +204,18 @@ Lemma get_thread_set_cset v s th : get_thread (s <| code_set := v |>) th = get_t
 #[export] Hint Rewrite get_thread_set_sd get_thread_set_lock get_thread_set_wg get_thread_set_runc get_thread_set_thinst
   get_thread_set_running get_thread_set_donereg get_thread_set_insts get_thread_set_pcode get_thread_set_cset : sup.
 
-(* ---- the larger window set needed for the "no relaunch decision after a stop request" clause -------- *)
-Definition W4 (o : obs) : bool := w_commit o || w_sdlag o || w_dup o || w_zombie o.
+(* ---- the window set (commit, sdlag, dup) needed for the "no relaunch decision after a stop request" clause -------- *)
+Definition W3 (o : obs) : bool := w_commit o || w_sdlag o || w_dup o.
 
-Lemma W4_mono cs o e : W4 o = true -> W4 (obs_step cs o e) = true.
+Lemma W3_mono cs o e : W3 o = true -> W3 (obs_step cs o e) = true.
 Proof.
   pose proof (obs_step_flags_mono cs o e) as H. unfold flag_le, windows_of in H.
   inversion H as [|? ? ? ? Hz H1]; subst. inversion H1 as [|? ? ? ? Hsd H2]; subst.
   inversion H2 as [|? ? ? ? Hc H3]; subst. inversion H3 as [|? ? ? ? _ H4]; subst.
   inversion H4 as [|? ? ? ? _ H5]; subst. inversion H5 as [|? ? ? ? Hd _]; subst.
-  unfold W4. intros E. repeat (apply orb_true_iff in E; destruct E as [E|E]);
-    repeat (apply orb_true_iff; (left + right)); auto; fail.
+  unfold W3. intros E. destruct (w_commit o); [rewrite Hc by reflexivity; reflexivity|].
+  destruct (w_sdlag o); [rewrite Hsd by reflexivity; apply orb_true_iff; left; apply orb_true_r|].
+  cbn in E. rewrite Hd by exact E. apply orb_true_r.
 Qed.
 
 (* hardened model: the creation stage is a plain field; everything else is read through it *)
